@@ -107,7 +107,7 @@ Qed.
 Lemma srcs_ok_sub g g' : srcs_ok g -> (forall e, In e (sg_edges g') -> In e (sg_edges g)) ->
   (forall a b, In (a, b) (sg_edges g') -> sg_label g' a = sg_label g a) -> srcs_ok g'.
 Proof.
-  intros H Hsub Hlab a b Hab. rewrite (Hlab a b Hab). apply (H a b). now apply Hsub.
+  intros H Hsub Hlab a b Hab. unfold gate_at. rewrite (Hlab a b Hab). apply (H a b). now apply Hsub.
 Qed.
 
 (* ---------- the steps ---------- *)
@@ -163,7 +163,7 @@ Proof.
   - now apply (or_true_Inv g nx).
   - intros a b Hab. cbn [remove_out_edges set_label sg_edges] in Hab. apply filter_In in Hab.
     destruct Hab as [Hab Hne]. cbn [fst] in Hne. apply negb_true_iff, Nat.eqb_neq in Hne.
-    rewrite (or_true_label_other g nx a Hne). now apply (Hsrc a b).
+    unfold gate_at. rewrite (or_true_label_other g nx a Hne). now apply (Hsrc a b).
   - now apply (or_true_shrink g nx c).
   - constructor.
     + intros x. rewrite remove_out_edges_out, set_label_out. destruct (Nat.eqb x nx); [apply sublist_nil|apply sublist_refl].
@@ -193,7 +193,7 @@ Proof.
   - apply (mi_inv _ _ _ Hm).
   - intros a b Hab. rewrite (mi_edges _ _ _ Hm) in Hab. apply filter_In in Hab. destruct Hab as [Hab Hn].
     unfold notin in Hn. cbn [fst snd] in Hn. apply andb_true_iff in Hn. destruct Hn as [Hn _].
-    apply negb_true_iff, mem_notIn in Hn. rewrite (mi_live _ _ _ Hm a Hn). now apply (Hsrc a b).
+    apply negb_true_iff, mem_notIn in Hn. unfold gate_at. rewrite (mi_live _ _ _ Hm a Hn). now apply (Hsrc a b).
   - now apply (chain_shrink g g' R).
   - constructor.
     + intros x. destruct (in_dec Nat.eq_dec x R) as [Hin|Hnin].
